@@ -274,6 +274,9 @@ def run(ctx, res):
         res.ok("PIPELINE-AGREE", "get_diagnostics and syntax_check::check both run parse -> load -> check")
     else:
         res.bad("PIPELINE-AGREE", "pipeline # %s # %s" % (a, b), "lsp::get_diagnostics runs %s but syntax_check::check runs %s" % (a, b))
+    if ctx.tier == "thorough":
+        from .. import loops as LP
+        LP.run(ctx, res, reach)
     res.explanation = (
         "No-panic inventory over the %d functions reachable from lsp::run_lsp; ARM-SHAPE decides, on handle_message's "
         "CFG, that each of the %d request methods answers exactly once iff an id is present (path-count over the region "
